@@ -30,7 +30,8 @@
    hold for every such function; the executable reference of the run is
    Model/MacroFloat.lexical_float (Proofs/MacroFloatExamples.v). *)
 From JsonSyntax Require Import Base.Prelude Base.Value Base.Unicode Model.Macro
-  Spec.MacroDoc Spec.Minimal Spec.Grammar Model.EntryPoints Proofs.MacroProofs.
+  Spec.MacroDoc Spec.Minimal Spec.Grammar Model.EntryPoints Proofs.MacroProofs
+  Model.MacroSyntax Generated.MacroRules Proofs.MacroInterp Proofs.MacroRulesTie.
 
 (* the rule model builds the denoted value *)
 Theorem C19_expand : forall fmt_float env d, dom fmt_float env d ->
@@ -91,6 +92,39 @@ Proof. exact int_spelling. Qed.
 Theorem C19_fuel_monotone : forall fmt_float env f f' ts v,
   (f <= f')%nat -> expand fmt_float env f ts = Some v -> expand fmt_float env f' ts = Some v.
 Proof. exact expand_fuel_monotone. Qed.
+
+(* ---------- the rule set is the one of the source ---------- *)
+(* [src_rules] (Generated/MacroRules.v) is regenerated by lib/macro_translate.py from
+   `macro_rules! json` in src/macros.rs of the tree under check at the start of every
+   `bin/check C19`; [model_rules] (Proofs/MacroInterp.v) is the hand-written reference in the
+   embedding of Model/MacroSyntax.v.  This is the obligation that breaks when the rule set of
+   the source changes (syntactic: also when two rules that never both match are swapped). *)
+Theorem C19_rules_from_source : src_rules = model_rules.
+Proof. exact rules_tie. Qed.
+
+(* ... and the rule functions of Model/Macro.v implement exactly those rules: one step of the
+   model's dispatcher [first_match rules] is one step of the generic first-match interpreter of
+   the embedding on the rules read off the source, on every invocation [inv_ok] -- i.e. one that
+   uses the internal markers as the source says ("Must be invoked as: json!(@array [] ..)",
+   `@object [acc] (key) (rest) copy`, `@key (k)`) with already parsed expressions in the
+   accumulator; every invocation without internal marker is such ([inv_ok_user]), and outside
+   the two differ (MacroInterp.step_model_needs_inv_ok) *)
+Theorem C19_rules_semantics : forall ts, inv_ok ts -> first_match rules ts = interp_step src_rules ts.
+Proof. exact src_rules_semantics. Qed.
+
+(* ... hence whole expansions: on every invocation that does not begin with an internal marker
+   ([user_inv]; [tokens d] of every document is such), [expand] -- the function of C19_expand --
+   is [expand_with (interp_step src_rules)]: the same driver ([mrun_with], [mrun] of
+   Model/Macro.v with the one-step function as a parameter) over the generic interpreter of the
+   rules of the source *)
+Theorem C19_expand_by_source_rules : forall fmt_float env fuel ts, user_inv ts = true ->
+  expand fmt_float env fuel ts = expand_with (interp_step src_rules) fmt_float env fuel ts.
+Proof. exact expand_by_source_rules. Qed.
+
+(* in particular C19_expand holds of the generic interpreter run on the rules of the source *)
+Theorem C19_source_rules_expand : forall fmt_float env d, dom fmt_float env d ->
+  exists fuel, expand_with (interp_step src_rules) fmt_float env fuel (tokens d) = Some (value_of d).
+Proof. exact source_rules_expand_tokens. Qed.
 
 (* ---------- non-vacuity: a concrete document ---------- *)
 (* (the same examples under the executable float reference lexical_f64 are in
@@ -208,6 +242,10 @@ Print Assumptions C19_trailing_comma_irrelevant.
 Print Assumptions C19_text_is_minimal.
 Print Assumptions C19_int_spelling.
 Print Assumptions C19_fuel_monotone.
+Print Assumptions C19_rules_from_source.
+Print Assumptions C19_rules_semantics.
+Print Assumptions C19_expand_by_source_rules.
+Print Assumptions C19_source_rules_expand.
 Print Assumptions C19_example_expand.
 Print Assumptions C19_example_text.
 Print Assumptions C19_example_any_float_spelling.
